@@ -112,6 +112,14 @@ def builders(tier='quick', seed=0):
         return _entry(cid, cr, chem=1, nshell=4, interstitial=True)
     add('mono-P2/m-rotated', lambda: monoP2m(True))
 
+    def monoPm_tilted():
+        # mobile species on a mirror plane whose normal is tilted towards z (|n_z| > 0.75) with a non-zero x component
+        latt = rot3(0.37, 0.5) @ np.array([[1., 0, 0], [0.23, 1.12, 0], [0, 0, 1.31]]).T
+        host = C(latt, [[np.zeros(3)]], chemistry=['A'])
+        cr = host.addbasis(host.Wyckoffpos(np.array([0.21, 0.34, 0.5])), ['X'])
+        return _entry('mono-mirror-site-tilted-normal', cr, chem=1, nshell=3, interstitial=True)
+    add('mono-mirror-site-tilted-normal', monoPm_tilted)
+
     def rect2Drot():
         th = np.pi / 6
         R = np.array([[np.cos(th), -np.sin(th)], [np.sin(th), np.cos(th)]])
